@@ -5,7 +5,7 @@ import "fmt"
 // C40: the predicted ID-delta maps agree with the edits (spec: coq/C38/Spec.v spec_deltas).
 
 func init() {
-	register(&Prop{ID: "C40", Module: "V.C40.Check", Gen: c40Gen, Quick: 900, Thorough: 12000, Shard: 300})
+	register(&Prop{ID: "C40", Module: "V.C40.Check", Gen: c40Gen, Quick: 1500, Thorough: 12000, Shard: 300})
 }
 
 func c40KF(pg *c38PGraph, op *c38Op, text string) []string {
@@ -13,14 +13,12 @@ func c40KF(pg *c38PGraph, op *c38Op, text string) []string {
 		"flat-field-leak":                "C40-edit-defect-delete-flat-field",
 		"hoist-undetected-child":         "C40-edit-defect-hoist-conflict",
 		"move-dotted-ref":                "C40-edit-defect-move-dotted-key",
+		"hoist-mixed-case":               "C40-edit-defect-hoist-mixed-case",
 		"move-into-own-descendant":       "C40-edit-defect-move-into-own-descendant",
 		"move-dest-referenced-inside":    "C40-edit-defect-move-destination-referenced-from-inside",
 		"move-mid-edge-key":              "C40-edit-defect-move-object-in-middle-of-edge-key",
-		"move-deltas-same-scope":         "C40-move-same-scope-predicts-hoisting",
 		"move-deltas-sibling-names":      "C40-move-prediction-ignores-hoisted-siblings",
 		"edge-key-ref-to-own-descendant": "C40-edit-defect-delete-edge-key-reference",
-		"rename-wrong-scope":             "C40-rename-prediction-scope",
-		"edge-to-own-descendant":         "C40-delete-predicts-removed-edge",
 	})
 }
 
@@ -33,6 +31,10 @@ func c40Gen(r *Rng, tier string, n int) []Case {
 		}
 	}
 	for len(out) < n {
+		if r.Chance(0.12) {
+			out = append(out, c38History(r.Fork(), c38GenMultiEdge(r), r.Range(1, 6), []string{"deledge", "deledge", "deledge", "rename", "delobj"}, "multiedge", c40KF)...)
+			continue
+		}
 		rich := r.Intn(3)
 		text := c38GenDiagram(r, rich)
 		out = append(out, c38History(r.Fork(), text, r.Range(1, 20), kinds, fmt.Sprintf("rich%d", rich), c40KF)...)
